@@ -12,7 +12,7 @@ def run(tier):
         "fakes for application, mDNS; operations atomic except for the notification goroutines; the mapping table itself is compared with nothing but its use (hello-ok => trusted)",
     ]
     c.bounds = {"state_changes_per_ski": 2, "notification_goroutines": 2, "delay_bound": d}
-    res = hubstep.run_hub(c, ["H_C18_Seq"], ("C18.",), replay=False)
+    res = hubstep.run_hub(c, ["H_C18_Seq", "H_C18_Pending"], ("C18.",), replay=True)
     res2, meta2 = lib.run_engine("hub", ["H_C18_Order"], sched="explore", preempt=d, cuts=hubstep.HUB_CUTS, loop=64)
     c.add_run("notification-order", res2, meta2)
     for e, r in (res2 or {}).items():
